@@ -120,7 +120,8 @@ inductive CertKind where
   | unknownCA    -- signed by CA 2
   | expired      -- signed by CA 1, expired
   | selfSigned
-  | absent
+  | absent       -- TLS without a client certificate
+  | plain        -- no TLS at all (listener side: plaintext DNS / HTTP to the TLS port)
   deriving DecidableEq, Repr
 
 def CertKind.peer : CertKind → Option Peer
@@ -130,6 +131,7 @@ def CertKind.peer : CertKind → Option Peer
   | .expired => some ⟨fun p => p == some 1, true, false⟩
   | .selfSigned => some ⟨fun _ => false, true, true⟩
   | .absent => none
+  | .plain => none
 
 /-- which side of the product is exercised -/
 inductive Side where
@@ -162,7 +164,7 @@ def modelHs (c : HsCase) : Option Bool :=
     | _ => none
   | .listener =>
     match makeTlsConfig c.cfg true with
-    | .ok g => some (serves g c.peer.peer)
+    | .ok g => some (c.peer != .plain && serves g c.peer.peer)   -- a TLS listener never talks plaintext
     | _ => none
 
 /-- the property text, independently of `makeTlsConfig`:
@@ -180,8 +182,9 @@ def specHs (c : HsCase) (o : Option Bool) : Bool :=
     else true
   | .listener =>
     if c.cfg.verifyClientCert && o == some true then
-      (c.peer == .valid && c.cfg.ca == .good 1) || (c.peer == .unknownCA && c.cfg.ca == .good 2) ||
-      (c.peer == .wrongName && c.cfg.ca == .good 1)   -- client certificates carry no name to match
+      c.peer != .plain &&
+      ((c.peer == .valid && c.cfg.ca == .good 1) || (c.peer == .unknownCA && c.cfg.ca == .good 2) ||
+       (c.peer == .wrongName && c.cfg.ca == .good 1))   -- client certificates carry no name to match
     else true
 
 /-! ### line protocol -/
@@ -269,6 +272,7 @@ def kindOfStr (s : String) : Option CertKind :=
   match s with
   | "valid" => some .valid | "wrongname" => some .wrongName | "unknownca" => some .unknownCA
   | "expired" => some .expired | "selfsigned" => some .selfSigned | "absent" => some .absent
+  | "plain" => some .plain
   | _ => none
 
 def strOfOutcome : Option Bool → String
